@@ -474,6 +474,27 @@ def _cast_idiom2(ctx, s2):
             if v == SNONE and (e.conds, e.loops) not in sets:
                 problems.append(f"a None is put into the result buffer without setting `{flag}`: the result would hold None under a "
                                 f"non-nullable dtype")
+    # the requested type labels the result only when there is no typed element to go by: otherwise a target that is a SUBCLASS of
+    # a builtin kind (an IntEnum, a str subclass) would be reported as the kind, while every kind test of the library (infer_kind,
+    # validate_scalar) maps its instances to the builtin - writing an element back would be refused
+    from ..sites2 import leaves_with_conds, single_element
+    from ..symx import flatten_conds as _fc
+    tpar = ("param", s2.top.params[1]) if len(s2.top.params) > 1 else None
+    for dt, dconds in leaves_with_conds(s2.dtype):
+        cd = const_dtype(dt)
+        if cd is None or cd[0] != tpar:
+            continue
+        ok_empty = False
+        for t, pol in _fc(tuple(dconds) + tuple(s2.ev.conds)):
+            if pol and t[0] == "call" and t[1] == ("name", "all") and len(t[2]) == 1 and t[2][0][0] == "obj":
+                se = single_element(it, t[2][0])
+                if se is not None and len(se[0]) == 1 and not se[1] and strip_seq(it, it.loops[se[0][0]].iter) == buf \
+                        and se[2] == ("cmp", "Is", ("elem", it.loops[se[0][0]].iter, se[0][0]), SNONE):
+                    ok_empty = True
+        if not ok_empty:
+            problems.append(f"the result is labelled with the requested type itself (`{show(dt, it)[:50]}`) also when it holds converted values: "
+                            f"for a target that is a subclass of a builtin kind (IntEnum, a str subclass) the reported kind is one the library "
+                            f"never assigns to those elements, and v[0] = v[0] is refused")
     problems += _cast_kind_problems(s2, buf)
     return (not problems, "; ".join(problems) if problems else "cast idiom: DataType(target, nullable=has_none) with has_none set "
             "exactly where None is appended; every converted element is of the target kind; otherwise inferred from the buffer")
@@ -1477,6 +1498,8 @@ MUTANTS = [
     dict(id="bool-rung-missing", module=_V, old="		if target_kind is int:\n			return kind is bool\n		if target_kind is float:\n			return kind in (bool, int)",
          new="		if target_kind is float:\n			return kind is int", rules=["b.promote", "b.validation-loop"],
          desc="the defect repaired by fix 64d31b9: a bool vector rejects an int value instead of promoting"),
+    dict(id="cast-labels-with-raw-target-class", module=_V, old="		if isinstance(py_target_type, type) and all(x is None for x in out):",
+         new="		if isinstance(py_target_type, type):", rules=["a.site-typing"], desc="the defect repaired by fix f52cec5"),
     dict(id="rshift-labels-columns-with-own-dtype", module=_V, old="			return Vector((self,) + (other,))",
          new="			return Vector((self,) + (other,), dtype=self._dtype)", rules=["a.site-typing"],
          desc="the defect repaired by fix eaff0dd"),
